@@ -582,6 +582,52 @@ def r6_sweep(ctx, repo):
         ctx.holds("R6", C, where(mod, fn), "one individual per generated vector, each recorded once in order, one evaluate of the batch")
 
 
+def r3_marker_default(ctx, repo, rule="R3"):
+    """the feasibility flag of a design evaluated without constraints is whatever it was before: the constructor's default,
+    or - after a failed attempt - the constant the retry handler wrote.  Both must mean the same (truthiness), otherwise a
+    design whose first attempt failed transiently carries another marker than an identical design that succeeded at once,
+    and is ranked apart from it by the feasibility cascade of the comparators"""
+    ind = repo.cls("Individual", "individual")
+    init = ind.methods.get("__init__")
+    job = repo.cls("Job", "job").methods.get("evaluate") if repo.has_cls("Job") else None
+    if init is None or job is None:
+        return
+    FE = ("features['feasible']", 'features["feasible"]')
+
+    def flag_consts(fn, in_handler):
+        out = []
+        for node in ast.walk(fn):
+            if in_handler and not isinstance(node, ast.ExceptHandler):
+                continue
+            scope = node if in_handler else fn
+            for s_ in ast.walk(scope):
+                if isinstance(s_, ast.Assign) and any(text(t).endswith(FE) for t in s_.targets) and is_const(s_.value):
+                    out.append((s_, const_value(s_.value)))
+                elif isinstance(s_, ast.Assign) and any(text(t).endswith(".features") for t in s_.targets) and isinstance(s_.value, ast.Dict):
+                    for k_, v_ in zip(s_.value.keys, s_.value.values):
+                        if isinstance(k_, ast.Constant) and k_.value == "feasible" and is_const(v_):
+                            out.append((s_, const_value(v_)))
+            if not in_handler:
+                break
+        return out
+    defaults = flag_consts(init, False)
+    handler = flag_consts(job, True)
+    C = "Individual.__init__ / Job.evaluate"
+    if len({bool(v) for _, v in defaults}) != 1 or not handler:
+        ctx.inconclusive(rule, C, where(ind.module, init), "default / retry value of the feasibility flag not recognised", key="marker-default")
+        return
+    d = bool(defaults[0][1])
+    odd = [(s_, v) for s_, v in handler if bool(v) != d]
+    # unconstrained problems never recompute the flag (guard len(constraints) > 0): the two constants are all it ever holds
+    if odd:
+        ctx.violated(rule, C, where(repo.cls("Job", "job").module, odd[0][0]),
+                     "a new design starts with feasible = %r but the retry handler sets feasible = %r, and without constraints nothing recomputes it: a design whose "
+                     "first attempt failed keeps another feasibility marker than designs that succeeded at once and is ranked apart from them whatever its costs"
+                     % (defaults[0][1], odd[0][1]), key="marker-default")
+    else:
+        ctx.holds(rule, C, where(ind.module, defaults[0][0]), "constructor default and retry handler give the feasibility flag the same truth value (%r)" % d, key="marker-default")
+
+
 def run(ctx):
     for rid, doc in (("R1", "EVALUATED-guard before every objective call"), ("R2", "one call per attempt; costs = result unmodified; calc_signed_costs(signs); then EVALUATED"),
                      ("R3", "signed-cost formula, marker = not feasible appended last, feasible = all(g<0) of the stored vector"),
@@ -592,6 +638,7 @@ def run(ctx):
     ctx.count("paths_job_evaluate", len(jm.paths))
     r1_r2(ctx, jm)
     r3_calc(ctx, ctx.repo)
+    r3_marker_default(ctx, ctx.repo)
     r4_signs(ctx, ctx.repo)
     r5_bridges(ctx, ctx.repo)
     r6_sweep(ctx, ctx.repo)
